@@ -26,16 +26,19 @@ class Boom(Exception):
 
 
 class _Src(ItemSource):
-    def __init__(self, n, fail_call, log):
+    def __init__(self, n, fail_call, log, latency=0):
         self.items = list(range(1, n + 1))
         self.calls = 0
         self.fail_call = fail_call
         self.log = log
+        self.latency = latency
 
     @asyncio.coroutine
     def get_item(self):
         self.calls += 1
         self.log.append(('get_item', self.calls))
+        for _ in range(self.latency):
+            yield from asyncio.sleep(0)              # a source that really awaits (a database, a network queue)
         if self.calls == self.fail_call:
             raise Boom('source')
         if self.items:
@@ -74,7 +77,7 @@ def _world(chooser, nitems, ntasks, conc, latency, ev_kind, ev_step, ev_arg, ev2
     st['log'] = log
 
     async def main():
-        src = _Src(nitems, fail_call, log)
+        src = _Src(nitems, fail_call, log, ev_arg if ev_kind == 0 else 0)     # without an event, ev_arg is the latency of the source
         fail_delay = ev2_step if (ev_kind in (1, 3) and ev2_step > 0) else 0      # (ev2_step is otherwise unused for a stop / a pause without follow-up)
         tasks = [_Task('t%d' % i, log, latency, fail_item if i == fail_task else -1, fail_delay) for i in range(ntasks)]
         pipe = Pipeline(src, tasks)
@@ -470,6 +473,8 @@ HARNESSES = [
            'pre': ['ev_step <= 25 and fail_item >= 1 and 0 <= ev2_step <= 6']},
           {'tag': 'stop_then_fail', 'fix': _fx(nitems=3, ntasks=1, conc=2, latency=1, ev_kind=1, ev_arg=0, ev2_step=0, fail_task=0, fail_call=-1, p2=81, a2=1, a1=1),
            'pre': ['ev_step <= 25 and p1 <= 25 and fail_item >= 1']},
+          {'tag': 'slow_source', 'fix': _fx(ntasks=1, ev_kind=0, ev_step=0, ev2_step=0, p2=81, a2=1, a1=1, **_NOFAIL),
+           'pre': ['1 <= ev_arg <= 3 and 1 <= nitems <= 2 and 1 <= conc <= 2 and p1 <= 20']},
           {'tag': 'start_paused', 'fix': _fx(nitems=2, ntasks=1, conc=0, latency=1, ev_kind=2, p2=81, a2=1, a1=1, p1=0, **_NOFAIL),
            'pre': ['ev_step <= 6 and 1 <= ev_arg <= 2 and ev2_step == 0']},
           {'tag': 'stop_then_late_fail', 'fix': _fx(nitems=3, ntasks=1, conc=2, latency=1, ev_kind=1, ev_arg=0, fail_task=0, fail_call=-1, p2=81, a2=1, a1=1, p1=0),
